@@ -473,3 +473,18 @@ def sim_states(res):
         if m:
             return int(m.group(1))
     return res.get("edges", 0)
+
+
+def run_repo_overlay_test(pkg, test_src_rel, overlay_name, run_pat, timeout=600):
+    """Run an in-package test kept under /verif/harness/shims inside a /repo package via `go test -overlay`."""
+    out = scratch("ovt-")
+    ov = os.path.join(out, "overlay.json")
+    with open(ov, "w") as f:
+        json.dump({"Replace": {os.path.join(REPO, pkg.lstrip("./"), overlay_name): os.path.join(HARNESS, test_src_rel)}}, f)
+    cmd = ["go", "test", "-tags", "verif", "-overlay", ov, "-vet=off", "-count=1", "-run", run_pat, "-timeout", "%ds" % timeout, pkg]
+    p = subprocess.run(cmd, cwd=REPO, env=goenv(), stdout=subprocess.PIPE, stderr=subprocess.STDOUT, text=True, timeout=timeout + 60)
+    viols = re.findall(r"VERIF-VIOLATION (\w+): ([^\n]*)", p.stdout)
+    ok = p.returncode == 0
+    if not ok and not viols:
+        raise HarnessTrouble("overlay test %s failed without a verdict:\n%s" % (pkg, p.stdout[-3000:]))
+    return dict(ok=ok, violations=viols, output_tail=p.stdout[-800:])
